@@ -295,6 +295,7 @@ pub mod verif_hooks {
 
     /// Nameable alias of the crate-private credit monitor type.
     pub type VMonitor = ChannelCreditMonitor;
+    pub type VReturner = ChannelCreditReturner;
 
     pub fn send_pair(initial: u32) -> (CreditProvider, CreditUser) {
         credit_send_pair(initial)
